@@ -21,7 +21,7 @@ def items(tier):
             for pre, post in corpus.windows(p):
                 out.append(mk("C10", p, "FindSubmatchIndex", maxL, a, mode=1, strategy=strat, pre=pre, post=post))
                 out.append(mk("C10", p, "FindIndex", maxL, a, mode=1, strategy=strat, pre=pre, post=post))
-        out.append(mk("C10", p, "CopyIsolation", 2, a, mode=0, strategy=strat))
+        out.append(mk("C10", p, "CopyIsolation", 2, a, mode=0, strategy=strat, step_limit=60000000))  # Copy recompiles inside the run
         if corpus.posix_ok(p):
             out.append(mk("C10", p, "FindIndex", 2, a, mode=2, strategy=strat))
     return out
